@@ -166,7 +166,8 @@ def main(argv=None):
     known_hit = []
     violations = []
     for e in refuted + unknown:
-        k = [f for f in known if f["obligation"] == e["name"]]
+        import fnmatch
+        k = [f for f in known if f["obligation"] == e["name"] or fnmatch.fnmatchcase(e["name"], f["obligation"])]
         if k:
             known_hit.append((e, k[0]))
         else:
@@ -301,12 +302,16 @@ def do_replay(prop, path):
     cr = rp.get("concrete_replay") or {}
     if cr.get("script"):
         p = subprocess.run([REPLAY_PY, cr["script"]] + [str(x) for x in cr.get("args", [])],
-                           env=dict(os.environ, PYTHONPATH=REPO), capture_output=True, text=True)
+                           env=dict(os.environ, PYTHONPATH=REPO + os.pathsep + os.path.join(VERIF, "replay")),
+                           capture_output=True, text=True, cwd=os.path.join(VERIF, "replay"))
         print(p.stdout[-4000:], p.stderr[-2000:])
-        if p.returncode != 0:
+        if p.returncode == 1:
             print("VIOLATION property=%s replay=%s" % (prop, path))
             return 1
-    return 0
+        return 0
+    # no concrete input: the replay file carries the failed obligation and the verifier's output
+    print("VIOLATION property=%s replay=%s no-failing-input-found" % (prop, path))
+    return 1
 
 
 if __name__ == "__main__":
